@@ -32,6 +32,7 @@ func runC16(c *Ctx) {
 	c.rule("Y6", "unpackPackageToLocalDestination unzips the verified temporary copy returned by TransferFiles, after it succeeded", 1)
 	c.rule("Y8", "getHash hands back the content of the .hash side file only where its length equals the digest length (or does not ignore the outcome of writing it)", 1)
 	c.rule("Y11", "immutable cache: the listing is sorted newest first, Fetch takes its element 0 and CleanEntry never removes element 0", 3)
+	c.rule("Y13", "Fetch installs the package as it was stored: it is not extracted with limits that apply recursively (nested archives stay archives)", 1)
 	c.rule("Y12", "getHash: where the write of the .hash side file fails, the side file is removed (or the failure is returned): a stale, well-formed side file never outlives the file it described", 1)
 	c.rule("Y10", "immutable CleanEntry decides what to keep and what to remove on a single listing of the entry directory", 1)
 	c.rule("Y9", "Fetch installs exactly one version: the destination is emptied unconditionally (a clean without exclusion patterns) before the package is unpacked into it, in both caches", 3)
@@ -1053,6 +1054,42 @@ func c16MayBeZero(idx ssa.Value) bool {
 	return false
 }
 
+// c16LimitsRecursive: the limits built by this call apply recursively — NewLimits(…, true), or a constructor of package
+// filesystem that (transitively) ends in one.
+func c16LimitsRecursive(cl *ssa.Call, depth int) bool {
+	if depth > 4 {
+		return true
+	}
+	g := staticCallee(&cl.Call)
+	if g == nil {
+		return true // unknown: not known to be flat
+	}
+	if g.Name() == "NewLimits" && len(cl.Call.Args) >= 5 {
+		b, isC := constBool(cl.Call.Args[4])
+		return !isC || b
+	}
+	if g.Name() == "NoLimits" {
+		return false
+	}
+	rec := false
+	found := false
+	allInstrs(g, func(in ssa.Instruction) {
+		r, ok := in.(*ssa.Return)
+		if !ok || len(r.Results) == 0 {
+			return
+		}
+		for _, l := range sources(r.Results[0], deriveOpts{}) {
+			if ic, isCall := l.(*ssa.Call); isCall {
+				found = true
+				if c16LimitsRecursive(ic, depth+1) {
+					rec = true
+				}
+			}
+		}
+	})
+	return rec || !found
+}
+
 // c16Reaches reports whether g is target or calls it through at most depth static calls.
 func c16Reaches(g, target *ssa.Function, depth int) bool {
 	if g == nil || target == nil {
@@ -1216,13 +1253,41 @@ func (c *Ctx) c16Transfer() {
 		good := tr != nil && uz != nil && dominates(tr, uz) && onNilSide(errResultsOf(tr)[0], uz)
 		if good {
 			good = false
-			for _, l := range sources(uz.Call.Args[len(uz.Call.Args)-2], deriveOpts{}) {
-				if ex, ok := l.(*ssa.Extract); ok && ex.Tuple == ssa.Value(tr) && ex.Index == 0 {
-					good = true
+			// the archive argument: the first string argument (…(ctx, source, destination[, limits]))
+			for _, a := range uz.Call.Args {
+				if bt, isB := a.Type().Underlying().(*types.Basic); !isB || bt.Kind() != types.String {
+					continue
 				}
+				for _, l := range sources(a, deriveOpts{}) {
+					if ex, ok := l.(*ssa.Extract); ok && ex.Tuple == ssa.Value(tr) && ex.Index == 0 {
+						good = true
+					}
+				}
+				break
 			}
 		}
 		c.check(good, "Y6", fname(g), c.pos(g.Pos()), "unzips the verified temporary copy", "the archive unzipped into the destination is not the hash-verified temporary copy (or the transfer's failure is ignored)")
+		// Y13: the package is installed as it was stored: an archive found inside it stays an archive. Extraction with limits
+		// that apply recursively (DefaultLimits, DefaultZipLimits, RecursiveZipLimits, NewLimits(…, true)) replaces every nested
+		// zip by a folder of its content.
+		if uz != nil {
+			recursive := ""
+			if strings.Contains(calleeFull(&uz.Call), "AndLimits") {
+				lim := uz.Call.Args[len(uz.Call.Args)-1]
+				for _, l := range sources(lim, deriveOpts{}) {
+					lc, isCall := l.(*ssa.Call)
+					if !isCall {
+						recursive = "limits of unknown origin"
+						continue
+					}
+					if c16LimitsRecursive(lc, 0) {
+						recursive = short(calleeFull(&lc.Call))
+					}
+				}
+			}
+			c.check(recursive == "", "Y13", fname(g)+"/as-stored", c.ipos(uz), "the package is extracted without recursing into the archives it contains",
+				"the package is extracted with limits that apply recursively ("+recursive+"): a zip archive that is part of the stored version is replaced by a folder of its content — Fetch succeeds and installs a tree that is not the version which was stored")
+		}
 	}
 }
 
